@@ -266,7 +266,7 @@ func suiteCrash(c *Ctx) error {
 	nh := 6
 	perHist := 60
 	if c.Tier == "thorough" {
-		nh, perHist = 24, 1 << 30
+		nh, perHist = 24, 1<<30
 	}
 	if c.N > 0 {
 		nh = c.N
